@@ -60,13 +60,23 @@ let check_debug ~alt ~repr b s e p (text : string) : bool =
     n > t && String.sub text (n - t) t = tail && sig_ok (String.sub text 0 (n - t))
   end
 
-(* as-is models (filled from Float/TextIoModel.v) *)
+(* as-is models (Float/TextIoModel.v): fidelity statistic only, never the verdict *)
 module Asis = struct
-  let parse (_b : Zar.t) (_text : Zar.t list) = None
-  let show_parse _ = "?"
-  let known_parse _b _text _asis (_got : string list) : string option = None
-  let print (_op : string) _b _m _f _s _e _prec : Zar.t list option = None
-  let with_precision _b _p0 _p _m _s _e = "?"
+  let show_parse = function
+    | Ok ((s, e), p) -> "ok " ^ hx s ^ " " ^ hx e ^ " " ^ hx p
+    | Err _ -> "err"
+    | _ -> "panic"
+  let parse (b : Zar.t) (text : Zar.t list) = parse_asis b text
+  let print (op : string) b m f s e prec : Zar.t list option =
+    match op with
+    | "disp" | "disp_repr" -> Some (fmt_round_asis b m f s e prec)
+    | _ when f.f_width = None ->
+        let upper = (op = "uexp" || op = "uexp_repr") in
+        Some ((if Zar.sign s < 0 then [ zi 45 ] else if f.f_plus then [ zi 43 ] else []) @ sci_body_asis b m upper s e prec)
+    | _ -> None
+  let with_precision b p0 p m s e =
+    let ((s', e'), f) = with_precision_asis b p0 p m s e in
+    Printf.sprintf "ok %s %s %s %s" (hx s') (hx e') (flag_tok f) (hx p)
 end
 
 let threshold_small_exp = zi 38
@@ -79,27 +89,27 @@ let judge op args got =
   match op with
   | "parse" | "parse_native" | "parse_repr" ->
       let text = bytes_of_tok (arg 2) in
-      let asis = Asis.parse b text in
-      let fid want_tok = " asis=" ^ (if want_tok = String.concat " " got then "same" else "diff") in
+      let asis = Asis.show_parse (Asis.parse b text) in
+      let got_class = (match got with "err" :: _ -> "err" | _ -> String.concat " " got) in
+      let fid = " asis=" ^ (if asis = got_class then "same" else "diff") in
       (match parse_spec b text with
        | Some ((s, e), p) ->
-           let want = "ok " ^ hx s ^ " " ^ hx e ^ " " ^ hx p in
-           (match Asis.known_parse b text asis got with
-            | Some tag when split_ws want <> got -> known tag want
-            | _ -> expect ~extra:("cls=accept" ^ fid (Asis.show_parse asis)) want got)
+           expect ~extra:("cls=accept" ^ fid) ("ok " ^ hx s ^ " " ^ hx e ^ " " ^ hx p) got
        | None ->
            (match got with
-            | "err" :: _ -> pass ~nt:false ~extra:("cls=reject" ^ fid (Asis.show_parse asis)) ()
-            | _ -> (match Asis.known_parse b text asis got with Some tag -> known tag "err" | None -> fail "err")))
+            | "err" :: _ -> pass ~nt:false ~extra:("cls=reject" ^ fid) ()
+            | _ -> fail "err"))
   | "disp" | "disp_repr" | "lexp" | "lexp_repr" | "uexp" | "uexp_repr" ->
       let (s, e) = norm (z (arg 2)) (z (arg 3)) in
       let f = flags_of (arg 5) (optz (arg 6)) in
       let prec = optz (arg 7) in
       let m = if String.length op > 5 then MZero else m in   (* Repr prints with mode Zero *)
-      let want = match op with
-        | "disp" | "disp_repr" -> display_spec b m f s e prec
-        | "lexp" | "lexp_repr" -> sci_spec b m false f s e prec
-        | _ -> sci_spec b m true f s e prec in
+      let body = match op with
+        | "disp" | "disp_repr" -> display_body_spec b m s e prec
+        | "lexp" | "lexp_repr" -> sci_body_spec b m false s e prec
+        | _ -> sci_body_spec b m true s e prec in
+      let neg = Zar.sign s < 0 in
+      let want = pad_spec f neg body in
       let rounded = (match prec with
           | Some p -> (match op with
               | "disp" | "disp_repr" -> Zar.sign (Zar.add p e) < 0
@@ -107,7 +117,15 @@ let judge op args got =
           | None -> false) in
       let asis = Asis.print op b m f s e prec in
       let fid = match asis with Some t -> " asis=" ^ (if [ "ok"; tok_of_bytes t ] = got then "same" else "diff") | None -> "" in
-      expect ~nt:true ~extra:("cls=" ^ (if rounded then "rounded" else "plain") ^ (if f.f_width <> None then "-width" else "") ^ fid) ("ok " ^ tok_of_bytes want) got
+      let cls = "cls=" ^ (if rounded then "rounded" else "plain") ^ (if f.f_width <> None then "-width" else "") in
+      (* padding (width, fill, alignment, zero flag) is outside the property: the verdict is on sign + body *)
+      (match got with
+       | [ "ok"; t ] ->
+           let g = bytes_of_tok t in
+           if layout_ok f neg body g then
+             pass ~nt:true ~extra:(cls ^ (if f.f_width <> None then " path=" ^ (if g = want then "padding-as-core-fmt" else "padding-differs") else "") ^ fid) ()
+           else fail ("ok " ^ tok_of_bytes want)
+       | _ -> fail ("ok " ^ tok_of_bytes want))
   | "dbg" | "dbg_alt" | "dbg_repr" | "dbg_repr_alt" ->
       let (s, e) = norm (z (arg 2)) (z (arg 3)) in
       (match got with
@@ -161,11 +179,21 @@ let judge op args got =
              let full = check_contract nb rp m x rs re fl in
              let exact = cmp_kx nb Zar.one x rs re = Eq in
              let cls = (if exact then "exact" else "inexact") ^ "-" ^ rf in
-             if full then pass ~extra:("cls=" ^ cls ^ " path=" ^ route) ()
-             else if route = "large" && check_within_ulp nb rp x rs re && Zar.leq (dlen nb rs) (Zar.succ rp) then
-               known "convert_base_large_exp_not_faithful" "contract"
+             let fid = (match convert_base_asis b nb rp m s e with
+                 | CDone (s', e', f') -> " asis=" ^ (if Zar.equal s' rs && Zar.equal e' re && flag_tok f' = rf then "same" else "diff")
+                 | _ -> "") in
+             if full then pass ~extra:("cls=" ^ cls ^ " path=" ^ route ^ fid) ()
+             else if route = "large" && Zar.leq (dlen nb rs) (Zar.succ rp) then
+               (* open finding: the ln/exp route is not faithful; no as-is model of the series exists,
+                  the class is its input route + an answer of the right shape *)
+               { (known "convert_base_large_exp_not_faithful" "contract") with
+                 extra = "want=contract cls=large-" ^ (if check_within_ulp nb rp x rs re then "within-1ulp" else "off-by-1ulp-or-more") ^ " path=" ^ route }
              else { v = "fail"; extra = "contract-violated cls=" ^ cls ^ " path=" ^ route }
            end
+       | "panic" :: cl :: _ when route = "large" && Zar.sign (match fixed_p with Some p -> p | None -> p0) > 0
+                                   && String.length cl >= 12 && String.sub cl 0 12 = "Undocumented" ->
+           (* repr_div's debug assertion inside the ln/exp route *)
+           { (known "convert_base_large_exp_not_faithful" "contract") with extra = "want=contract cls=large-debug-assertion path=" ^ route }
        | [ "panic"; "UnlimitedPrecision" ] ->
            let target_unlimited = match fixed_p with
              | Some p -> Zar.sign p = 0
